@@ -525,7 +525,38 @@ func fpUTLSHello(orig *tls.ClientHelloSpec, wireParams []fpParam, serverName str
 	}
 }
 
+// fpCompareECH: encrypted_client_hello (outer, GREASE): type(1) kdf(2) aead(2) config_id(1)
+// enc<2> payload<2>.
+func fpCompareECH(a, b []byte) string {
+	parse := func(x []byte) (hdr []byte, encLen, payLen int, ok bool) {
+		if len(x) < 8 {
+			return nil, 0, 0, false
+		}
+		encLen = int(binary.BigEndian.Uint16(x[6:]))
+		if len(x) < 8+encLen+2 {
+			return nil, 0, 0, false
+		}
+		payLen = int(binary.BigEndian.Uint16(x[8+encLen:]))
+		return x[:5], encLen, payLen, len(x) == 8+encLen+2+payLen
+	}
+	ha, ea, pa, oka := parse(a)
+	hb, eb, pb, okb := parse(b)
+	if !oka || !okb || !bytes.Equal(ha, hb) || ea != eb || pa != pb {
+		return fmt.Sprintf("encrypted_client_hello %x.. enc %d payload %d vs %x.. enc %d payload %d", ha, ea, pa, hb, eb, pb)
+	}
+	return ""
+}
+
 // fpCompareHello: field-by-field comparison; returns "" when equal under the masks.
+// Compared: legacy_version; legacy_session_id length; cipher suites (order, GREASE values
+// normalised); compression methods; number, ORDER and ids of the extensions (GREASE ids
+// normalised, so a GREASE placeholder must sit at the same position); every extension's
+// length (hence the padding length and the total ClientHello length); every extension's body
+// byte for byte, except: GREASE placeholders and padding (byte for byte, they are constants),
+// key_share (list length, groups GREASE-normalised, key lengths, bytes of GREASE entries; key
+// material is random), supported_groups / supported_versions (GREASE-normalised), GREASE ECH
+// (type, KDF, AEAD, lengths; the rest is random), quic_transport_parameters (parameter list).
+// Not compared (random per connection): client random, session id bytes, key material.
 func fpCompareHello(wire, oracle *fpHello) string {
 	if wire.Version != oracle.Version {
 		return fmt.Sprintf("legacy_version %x vs %x", wire.Version, oracle.Version)
@@ -556,14 +587,36 @@ func fpCompareHello(wire, oracle *fpHello) string {
 			return fmt.Sprintf("extension %d length %d vs %d", a.ID, len(a.Body), len(b.Body))
 		}
 		switch {
-		case fpGrease16(a.ID), a.ID == 0xfe0d, a.ID == 21: // GREASE, GREASE ECH, padding: length only
-		case a.ID == 51: // key_share: groups and lengths
+		case fpGrease16(a.ID): // GREASE placeholder: same position (checked above), same body
+			if !bytes.Equal(a.Body, b.Body) {
+				return fmt.Sprintf("GREASE extension #%d body %x vs %x", i, a.Body, b.Body)
+			}
+		case a.ID == 21: // padding: same length (checked above), all zero on both sides
+			for j := range a.Body {
+				if a.Body[j] != 0 || b.Body[j] != 0 {
+					return fmt.Sprintf("padding extension is not all zero: %x vs %x", a.Body, b.Body)
+				}
+			}
+		case a.ID == 0xfe0d: // GREASE ECH (outer): type, KDF, AEAD, enc and payload lengths; config id, enc, payload are random
+			if d := fpCompareECH(a.Body, b.Body); d != "" {
+				return d
+			}
+		case a.ID == 51: // key_share: list length, groups (GREASE-normalised) and key lengths; a GREASE entry's bytes
+			if len(a.Body) < 2 || int(binary.BigEndian.Uint16(a.Body)) != len(a.Body)-2 || !bytes.Equal(a.Body[:2], b.Body[:2]) {
+				return fmt.Sprintf("key_share list length %x vs %x (body %d bytes)", a.Body[:2], b.Body[:2], len(a.Body))
+			}
 			x, y := a.Body[2:], b.Body[2:]
-			for len(x) >= 4 && len(y) >= 4 {
+			for len(x) > 0 || len(y) > 0 {
+				if len(x) < 4 || len(y) < 4 {
+					return fmt.Sprintf("key_share trailing bytes %x vs %x", x, y)
+				}
 				gx, gy := binary.BigEndian.Uint16(x), binary.BigEndian.Uint16(y)
 				lx, ly := int(binary.BigEndian.Uint16(x[2:])), int(binary.BigEndian.Uint16(y[2:]))
-				if fpNorm16(gx) != fpNorm16(gy) || lx != ly || len(x) < 4+lx {
+				if fpNorm16(gx) != fpNorm16(gy) || lx != ly || len(x) < 4+lx || len(y) < 4+ly {
 					return fmt.Sprintf("key_share entry %x/%d vs %x/%d", gx, lx, gy, ly)
+				}
+				if fpGrease16(gx) && !bytes.Equal(x[4:4+lx], y[4:4+ly]) {
+					return fmt.Sprintf("key_share GREASE entry %x vs %x", x[4:4+lx], y[4:4+ly])
 				}
 				x, y = x[4+lx:], y[4+ly:]
 			}
